@@ -26,7 +26,7 @@ func roundTrip(route string, typ reflect.Type, rv reflect.Value) (target reflect
 	var u *gotype.Unfolder
 	o = guard(func() error {
 		var err error
-		u, err = gotype.NewUnfolder(target.Interface())
+		u, err = newUnfolder(target.Interface())
 		return err
 	})
 	if o.Panicked() || o.Err != nil {
